@@ -68,6 +68,15 @@ class Grammar:
         return [(c, i, True, s1, s2) for i, (c, s1, s2) in enumerate(self.unary.get(x, []))]
 
 
+class WideGrammar(Grammar):
+    """one pair of categories (and one category) with several hundred rule results, only the LAST of which gives the root category: the derivation the parser
+    returns must carry that result's index, label and head direction (an index field narrower than the vector would wrap)"""
+    def __init__(self, width, head_left):
+        self.ncat, self.head_left, self.mixed = 4, head_left, False
+        self.binary = {(0, 1): [(2, f'b{k}', f'<b{k}>', head_left) for k in range(width - 1)] + [(3, f'b{width - 1}', f'<b{width - 1}>', head_left)]}
+        self.unary = {0: [(1, f'u{k}', f'<u{k}>') for k in range(width - 1)] + [(3, f'u{width - 1}', f'<u{width - 1}>')]}
+
+
 def admitted(tag_row, pruning, use_beta, beta):
     order = sorted(range(len(tag_row)), key=lambda c: (tag_row[c], c), reverse=True)[:pruning]
     if use_beta:
@@ -307,11 +316,17 @@ def main():
         penalty = rng.choice([0.0, 0.1, 1.0, 0.1, -0.5])       # a negative penalty (a bonus) is outside C01's premise but inside C09's quantifier
         nbest = rng.choice([1, 1, 2, 3, 5, 50])
         one_case(G, n, ntags, roots, pruning, use_beta, beta, penalty, nbest)
+    for width in (257, 300, 70000 if tier != 'quick' else 600):
+        for hl in (True, False):
+            G = WideGrammar(width, hl)
+            one_case(G, 2, 2, {3}, 50, False, 0.00001, 0.1, 1)         # two words tagged 0 / 1: the only root is result width-1 of the pair (0, 1)
+            one_case(G, 1, 1, {3}, 50, False, 0.00001, 0.1, 1)         # one word tagged 0: the only root is unary result width-1
     print(json.dumps(dict(evaluations=stats['n'], distinct_nontrivial=stats['with_parse'], failed_sentences=stats['failed_parse'], nodes_checked=stats['nodes'],
                           failures=fails, have_pop_hook=bool(harness.lib().have_hook), wall=round(time.time() - t0, 1),
                           rule=(f'{N} seeded cases: synthetic head-uniform grammars (3-6 categories, 1-3 labelled results per pair, acyclic unary rules), sentences of length 1-4, '
                                 '1-4 tags per token, random log-probability matrices (30% with rows flattened to -1e33), pruning_size in {1,2,3,50}, beta in {1e-5..0.9} on/off, '
-                                'penalty in {0,0.1,1}, k in {1,2,3,5,50}; oracle: exhaustive enumeration of all derivations; distinct_nontrivial = cases with a parse'))))
+                                'penalty in {0,0.1,1}, k in {1,2,3,5,50}; plus grammars with 257 / 300 / 600 results for one pair and one category whose last result alone gives the root; '
+                                'oracle: exhaustive enumeration of all derivations; distinct_nontrivial = cases with a parse'))))
 
 
 if __name__ == '__main__':
